@@ -45,6 +45,9 @@ Definition opa_inv_ok (q : nat) (A Ai : mat) : Prop :=
 Definition psd_factor_ok (q : nat) (C0 U0 : mat) (s0 : vec) : Prop :=
   wf K q q U0 /\ mmul K q q q (colscale K q q U0 s0) (mT K q q U0) = C0 /\
   forall i, (i < q)%nat -> fmul K (fsqrt K (vget K s0 i)) (fsqrt K (vget K s0 i)) = vget K s0 i.
+(* ---- the source's C0_sqrt_inv: the symmetric inverse square root U0 diag(1/sqrt(s0)) U0^T ---- *)
+Definition ci_sym (q : nat) (U0 : mat) (s0 : vec) : mat :=
+  tab q q (fun a b => sum K q (fun m => fmul K (fdiv K (get K U0 a m) (fsqrt K (vget K s0 m))) (get K U0 b m))).
 (* the whitening property the algorithm relies on: Ci^T C0 Ci = I *)
 Definition whiten_ok (q : nat) (C0 Ci : mat) : Prop :=
   wf K q q Ci /\ mmul K q q q (mmul K q q q (mT K q q Ci) C0) Ci = mI K q.
